@@ -245,8 +245,8 @@ int main(int argc, char **argv) {
     if (run_case(line, id, kind, flags, filters, arg)) failed++; else loaded++;
   }
   fprintf(fplan, "# loaded %lu failed %lu\n", loaded, failed);
-  fprintf(fplan, "# derived made %lu with_memcache %lu two_level_memcache %lu dropped_pu %lu dropped_node %lu allow_refused %lu v2 %lu retyped_to_group %lu retyped_cpuless %lu misc_inserted %lu\n",
-          drv_made, drv_with_memcache, drv_two_level_memcache, drv_dropped_pu, drv_dropped_node, drv_allow_refused, drv_v2, drv_retyped, drv_retyped_cpuless, drv_misc);
+  fprintf(fplan, "# derived made %lu with_memcache %lu two_level_memcache %lu dropped_pu %lu dropped_node %lu allow_refused %lu v2 %lu retyped_to_group %lu retyped_cpuless %lu misc_inserted %lu rmorder %lu\n",
+          drv_made, drv_with_memcache, drv_two_level_memcache, drv_dropped_pu, drv_dropped_node, drv_allow_refused, drv_v2, drv_retyped, drv_retyped_cpuless, drv_misc, drv_rmorder);
   fclose(fplan);
   return 0;
 }
